@@ -176,3 +176,136 @@ def _hook_not_branches(repo):
             if re.search(r'not\(\s*feature\s*=\s*"verif_hooks"\s*\)', line):
                 rows.append(f"{rel}:{n}")
     return rows, "def c05HookNotBranches : List String := " + _lean_list(rows)
+
+
+SCOPED_FIELDS = ("auto_escape", "current_block", "instructions", "blocks", "loaded_templates", "ctx")
+
+
+def _enclosing_fn(lines, idx):
+    for j in range(idx, -1, -1):
+        m = re.match(r"\s*(?:pub(?:\([^)]*\))?\s+)?fn\s+(\w+)", lines[j])
+        if m:
+            return m.group(1)
+    return "?"
+
+
+@item("C05_STATE_WRITERS")
+def _state_writers(repo):
+    """every site anywhere in the crate that writes one of the scoped fields of `State` (assignment,
+    mem::replace / swap / take), the frame stack / depth / closure register of `Context`, or the
+    capture stack of `Output`: (field, operation, file::fn)"""
+    root = os.path.join(repo, "minijinja/src")
+    rows = []
+    for dirpath, _, files in os.walk(root):
+        for fn in sorted(files):
+            if not fn.endswith(".rs") or fn == "verif_hooks.rs":
+                continue
+            rel = os.path.relpath(os.path.join(dirpath, fn), root)
+            src = _strip_comments(open(os.path.join(dirpath, fn), encoding="utf-8").read())
+            lines = src.splitlines()
+            for i, line in enumerate(lines):
+                if "verif" in line:
+                    continue
+                for f in SCOPED_FIELDS:
+                    if re.search(r"\b(?:self|state)\.%s\s*=[^=]" % f, line):
+                        rows.append((f, "assign", f"{rel}::{_enclosing_fn(lines, i)}"))
+                    m = re.search(r"mem::(replace|swap|take)\(\s*&mut (?:self|state)\.%s\b" % f, line)
+                    if m:
+                        rows.append((f, m.group(1), f"{rel}::{_enclosing_fn(lines, i)}"))
+                if rel == "vm/context.rs":
+                    m = re.search(r"self\.stack\.(push|pop|truncate|clear)\(", line)
+                    if m:
+                        rows.append(("frames", m.group(1), f"{rel}::{_enclosing_fn(lines, i)}"))
+                    m = re.search(r"self\.outer_stack_depth\s*(\+=|-=|=[^=])", line)
+                    if m:
+                        rows.append(("depth", m.group(1).strip()[:2].strip(), f"{rel}::{_enclosing_fn(lines, i)}"))
+                    m = re.search(r"\.closure(?:\.take\(\)|\s*=[^=])", line)
+                    if m:
+                        rows.append(("closure", "take" if "take" in m.group(0) else "assign", f"{rel}::{_enclosing_fn(lines, i)}"))
+                if rel == "output.rs":
+                    m = re.search(r"capture_stack\.(push|pop)\(", line)
+                    if m:
+                        rows.append(("captures", m.group(1), f"{rel}::{_enclosing_fn(lines, i)}"))
+    rows.sort()
+    if len(rows) < 15:
+        raise KeyError("state writers: too few sites found")
+    lean = ("def c05StateWriters : List (String × String × String) := [\n  "
+            + ",\n  ".join(f"({lean_str(a)}, {lean_str(b)}, {lean_str(c)})" for a, b, c in rows) + "]")
+    return rows, lean
+
+
+def _depth_at(body, pos):
+    """brace depth (relative to the function body) at offset pos"""
+    d = 0
+    for ch in body[:pos]:
+        if ch == "{":
+            d += 1
+        elif ch == "}":
+            d -= 1
+    return d
+
+
+@item("C05_HELPER_RESTORES")
+def _helper_restores(repo):
+    """for every save/restore helper outside the instruction pairs: where it runs the nested code and
+    where it restores — (site, restore landmark, brace depth of the restore inside the function body,
+    the nested run is not wrapped in an early-return macro, no `return` between run and restore)"""
+    vm = _strip_comments(read(repo, VM))
+    st = _strip_comments(read(repo, "minijinja/src/vm/state.rs"))
+    spec = [
+        ("state.rs::with_auto_escape", st, r"fn with_auto_escape<R>\s*\(", r"let rv = f\(self\);",
+         [("auto_escape", r"self\.auto_escape = old;")]),
+        ("state.rs::with_execution_state", st, r"fn with_execution_state<R>\s*\(", r"let rv = f\(self\);",
+         [("frames", r"self\.ctx\.restore_stack_depth\(stack_depth\);"), ("instructions", r"self\.instructions = old_instructions;"),
+          ("auto_escape", r"self\.auto_escape = old_auto_escape;"), ("current_block", r"self\.current_block = old_current_block;"),
+          ("blocks", r"self\.blocks = blocks;"), ("loaded_templates", r"self\.loaded_templates = loaded_templates;\s*\n\s*\}\s*\n\s*None")]),
+        ("vm/mod.rs::eval_macro", vm, r"fn eval_macro<'template>\s*\(", r"let rv = state\.with_execution_state\(",
+         [("ctx", r"mem::replace\(&mut state\.ctx, old_ctx\)")]),
+        ("vm/mod.rs::perform_super", vm, r"fn perform_super\s*\(", r"let rv = state\.with_execution_state\(",
+         [("frames", r"state\.ctx\.pop_frame\(\);"), ("blocks", r"state\.blocks\.get_mut\(name\)\.unwrap\(\)\.pop\(\);\s*\n\s*\n?\s*(?:#\[[^\]]*\]\s*)?(?:[^\n]*\n)?\s*ok!\(rv")]),
+        ("vm/mod.rs::perform_include", vm, r"fn perform_include\s*\(", r"let rv = state\.with_execution_state\(",
+         [("closure", r"state\.ctx\.reset_closure\(old_closure\);"), ("depth", r"state\.ctx\.decr_depth\(INCLUDE_RECURSION_COST\);")]),
+    ]
+    rows = []
+    for site, src, head, run_rx, restores in spec:
+        body = fn_body(src, head)
+        runs = list(re.finditer(run_rx, body))
+        if len(runs) != 1:
+            raise KeyError(f"{site}: expected exactly one nested run `{run_rx}`, found {len(runs)}")
+        run = runs[0]
+        run_depth = _depth_at(body, run.start())
+        for field, rx in restores:
+            ms = list(re.finditer(rx, body))
+            if len(ms) != 1:
+                raise KeyError(f"{site}: expected exactly one restore of {field}, found {len(ms)}")
+            r0 = ms[0]
+            if r0.start() < run.start():
+                raise KeyError(f"{site}: restore of {field} in front of the nested run")
+            between = body[run.end():r0.start()]
+            # the restore is as deep as the run (+ the mode switch of with_execution_state)
+            rel_depth = _depth_at(body, r0.start()) - run_depth
+            ret_between = bool(re.search(r"\breturn\b|\bok!\(|\?;", between.split("|state|")[0] if "|state|" not in between else re.sub(r"\|state\|.*?\n\s*\);", "", between, flags=re.S)))
+            rows.append((site, field, rel_depth, ret_between))
+    lean = ("def c05HelperRestores : List (String × String × Int × Bool) := [\n  "
+            + ",\n  ".join(f"({lean_str(a)}, {lean_str(b)}, {c}, {_b(d)})" for a, b, c, d in rows) + "]")
+    return rows, lean
+
+
+@item("C05_STATE_BUILTINS")
+def _state_builtins(repo):
+    """the builtin filters / tests / functions that are handed the State (from their signatures) and
+    the ones the harness applies inside every scoped construct"""
+    names = []
+    for rel in ("filters.rs", "tests.rs", "functions.rs"):
+        src = _strip_comments(read(repo, "minijinja/src/" + rel))
+        names += re.findall(r"pub fn (\w+)\s*(?:<[^>]*>)?\(\s*\w+:\s*&(?:mut )?State", src)
+    if len(names) < 10:
+        raise KeyError("builtins with State: too few found")
+    h = read(HERE, "harness/src/bin/c05.rs")
+    m = re.search(r"const BI_COVERED: \[&str; \d+\] = \[(.*?)\];", h, re.S)
+    if not m:
+        raise KeyError("harness: BI_COVERED")
+    covered = re.findall(r'"(\w+)"', m.group(1))
+    lean = ("def c05StateBuiltins : List String := " + _lean_list(names) + "\n"
+            "def c05HarnessBuiltins : List String := " + _lean_list(covered))
+    return {"source": names, "harness": covered}, lean
